@@ -367,9 +367,12 @@ func runC17(p *Prog, r *Report) {
 	if want("C17.8") {
 		ruleCacheResize(p, r, "C17.8")
 	}
-	if want("C17.8") {
+	if want("C17.9") {
 		// the cache's lock-free counters and pointers (shared with C05.19)
-		ruleAtomicDiscipline(p, r, "C17.8", false)
+		ruleAtomicDiscipline(p, r, "C17.9", false)
+	}
+	if want("C17.10") {
+		ruleBanPermanent(p, r, "C17.10")
 	}
 	if want("C17.7") {
 		ruleBucketOrder(p, r, "C17.7")
